@@ -62,5 +62,64 @@ CHECKS = {
     ),
 }
 
-_PENDING = "check not built yet in this revision of /verif (DESIGN.md section 4 describes it); it will be claimed once its harness exists"
-NOT_APPLICABLE = {p: _PENDING for p in ALL if p not in CHECKS}
+CHECKS.update(
+    {
+        "C07": B(
+            "all ordered triple lists up to a length bound (every permutation is a member) x partition modes x devices, plus deviation-bounded option combinations; independent stream parser (A-D-tip-action discipline, aggregated flows, break discipline)",
+            "All ordered lists of <= 2 (thorough <= 3) triples over 64 colliding (source, destination, volume) triples x 3 partition modes x 2 devices x plate/trough source; 48 lists x all combinations of <= 2 (3) of 14 call options; 2-D/broadcast shapes; all non-broadcastable length combinations and negative entries.",
+            "DESIGN.md 4/C07",
+        ),
+        "C08": B(
+            "every well of every geometry against closed-form numbering and its inverse; malformed IDs through every operation",
+            "Every well of every plate 1..26 x (quick: 18 column counts, thorough: 1..120) and every trough 1..26 virtual rows x 1..24 columns on both devices and all attributes/helpers; 13 malformed IDs x 9 operations x 2 labware x 2 devices.",
+            "DESIGN.md 4/C08",
+        ),
+        "C09": B(
+            "per emitter the product of per-field value classes with a bounded number of non-default fields (deviation bound), decoded by an independent grammar; plus a small explicit-state machine for the DiTi-switch protocol (all record sequences <= 3)",
+            "All argument tuples with <= 2 (thorough <= 3) non-default fields for aspirate_well / dispense_well (fixed and DiTi mode) and reagent_distribution, all wash/decontaminate/flush/commit/comment classes on 3 worklist types, 15 keyword pass-through cases on 2 devices, 820 record sequences before set_diti.",
+            "DESIGN.md 4/C09",
+        ),
+        "C10": B(
+            "all tip sequences up to length 3 over 16 symbols and all 255 subsets in three orders through every entry point; masks decoded from the records",
+            "16 single symbols, 4352 sequences, 255 subsets x 3 forms x 3 containers, invalid members at every index, through prepare/aspirate_well/dispense_well/aspirate/dispense/both transfers/evo_aspirate/evo_dispense/evo_wash.",
+            "DESIGN.md 4/C10",
+        ),
+        "C12": B(
+            "all subsets of every geometry with <= 14 wells (with injectivity count) and structured families for every other geometry; independent EVOware decoder",
+            "117 898 subsets over 41 small geometries exhaustively; empty/full/single/co-single/row/column/7-groups/boundary pairs/checkerboards for the rest (quick: 49 geometries, thorough: all 1 248).",
+            "DESIGN.md 4/C12",
+        ),
+        "C13": B(
+            "all well sequences x tip sequences up to length 3 on four geometries; each accepted command decoded by the EVOware rule and executed by the independent interpreter, compared with the tracked per-well change",
+            "~590 000 evo_aspirate/evo_dispense calls (tracked and bare), argument classes for volumes/grid/site/arm/liquid class, evo_wash with <= 2 (3) deviating parameters.",
+            "DESIGN.md 4/C13",
+        ),
+        "C14": B(
+            "complete parameter grid; every returned plan re-derived from its instructions in exact arithmetic and executed on both devices",
+            "4 032 (thorough 8 064) constructor calls; every returned plan executed in 4 device/max_volume/destination/mixing/trough-shape combinations and compared by composition tracking.",
+            "DESIGN.md 4/C14",
+        ),
+        "C15": B(
+            "all shapes 1..16 x 1..24 for rotator/randomizer (5 seeds x 3 modes), all A <= 4x6 into B <= 6x8 with every anchor for the shifter; closed-form geometry and inverse laws",
+            "384 shapes x 0-D/1-D/2-D inputs; 5 760 randomizers; 1 152 shifter shape pairs x all anchors plus three large pairs.",
+            "DESIGN.md 4/C15",
+        ),
+        "C18": B(
+            "all ordered triple lists up to a length bound with forced ties on both sides; multiset preservation, grouping and ordering laws",
+            "All lists of length 0..3 over 36 well pairs (thorough: length 4 over 16 pairs) x 2 modes x tied/untied volumes; optimize_partition_by on 4 labware combinations x 8 mode names.",
+            "DESIGN.md 4/C18",
+        ),
+        "C19": B(
+            "every (collection form, n) pair for collections of length 1..26 in all list/tuple/1-D/2-D factorisations",
+            "8 800 calls: n in 0..3*len+2 for every form, invalid n, empty collections.",
+            "DESIGN.md 4/C19",
+        ),
+        "C20": B(
+            "full product of size classes and, on six base geometries, of limit x initial-volume x naming classes; representability predicate written from the statement",
+            "6 665 constructor calls of Labware and Trough, valid and invalid; every accepted object checked for grid/ID/index/volume/limit/history/composition consistency.",
+            "DESIGN.md 4/C20",
+        ),
+    }
+)
+
+NOT_APPLICABLE = {}
